@@ -172,6 +172,20 @@ CLAIMED.update({
   design="DESIGN.md §4.C06"),
 })
 
+CLAIMED.update({
+ "C19": dict(
+  text="Deductive proof, on every method with a receiver that is under contract (246 functions: all collection, iterator, collator, sorter, formatter, parser, scanner and notation methods and class constructors), of the write-footprint side of instance independence: "
+       "(1) a write obligation at every store and at every location a callee's contract may modify — the target is an object allocated by this very call or is named by the function's own modifies clauses (which are rooted in the receiver's representation or in explicit arguments); unlike a two-state frame this also sees transient writes that are undone before return (the collator's depth counter); "
+       "(2) the two-state frame obligations of the same functions; (3) ownership posts where a constructor hands out mutable helper objects (a default sorter owns the collator behind its ranker; a set owns its collator; String() and NotationLike.FormatValue write nothing that existed before the call); "
+       "(4) for the eleven generic class accessors: guarded-by obligations on the package-level registry maps (every read, lookup and update happens with the registry mutex held), lock pairing on every path, and `the class returned is the one registered under the type's name, and an existing entry is reused'. "
+       "With the freshness/ownership results of C18 (distinct instances have disjoint representations) this gives: operations on distinct instances write disjoint memory and read only their own or never-written state, hence commute and are race-free. "
+       "Three genuine defects were found: two repaired (shared formatter behind String(); shared collator behind every default sorter), one recorded as a known finding with a -race witness (set algebra results share the first operand's collator).",
+  note="NOT decided by this family: that the Go race detector reports nothing on every schedule (the contracts decide the footprint discipline, not executions), reads (a read footprint is not tracked: soundness of the independence argument rests on `nothing shared is ever written', which the write obligations establish for the functions under contract), "
+       "functions not under contract (Module.go constructors other than Association/List/Stack/Array/Queue; fmt/reflect/strings internals are assumed not to write user-visible state), user-supplied rankers and collators (explicit sharing by the caller). "
+       "The registry accessors assume the calling thread does not already hold the registry mutex, and sync.Mutex semantics.",
+  design="DESIGN.md §4.C19"),
+})
+
 NOT_YET = {}
 
 TECH = "contract-based deductive verification: weakest-precondition style VCs generated from go/ssa of /repo, contracts in //go:build verif comment files, discharged by z3 5.1 / z3 4.8 / cvc5"
